@@ -94,6 +94,67 @@ def build_neighbor(c: dict) -> Neighbor:
     return neighbor
 
 
+def onoff(b: int) -> str:
+    return 'enable' if b else 'disable'
+
+
+def cfg_text(c: dict) -> str | None:
+    """The same configuration as a neighbor section of the configuration file grammar, or None when
+    the grammar cannot say it (paths-limit, any-peer-AS)."""
+    if c['pl'] or not c['pas'] or not c['fam']:
+        return None
+    fam = '\n'.join(f'        {AFI.from_int(a).name()} {SAFI.from_int(f).name()};' for a, f in c['fam'])
+    aps = '\n'.join(f'        {AFI.from_int(a).name()} {SAFI.from_int(f).name()};' for a, f in c['aps'])
+    nhs = '\n'.join(f'        {AFI.from_int(a).name()} {SAFI.from_int(f).name()} {AFI.from_int(h).name()};' for a, f, h in c['nhs'])
+    names = (f'    host-name {c["host"]};\n' if c['host'] else '') + (f'    domain-name {c["dom"]};\n' if c['dom'] else '')
+    return f"""neighbor 127.0.0.2 {{
+    router-id {ip4(c['rid'])};
+    local-address 127.0.0.1;
+    local-as {c['las']};
+    peer-as {c['pas']};
+    hold-time {c['hold']};
+{names}    capability {{
+        asn4 {onoff(c['asn4'])};
+        route-refresh {onoff(c['rr'])};
+        graceful-restart {'disable' if c['gr'] is None else c['gr']};
+        add-path {['disable', 'receive', 'send', 'send/receive'][c['ap']]};
+        extended-message {onoff(c['em'])};
+        operational {onoff(c['op'])};
+        nexthop {onoff(c['nhon'])};
+        multi-session {onoff(c['ms'])};
+        software-version {onoff(c['sw'])};
+        link-local-nexthop {onoff(c['ll'])};
+    }}
+    family {{
+{fam}
+    }}
+    add-path {{
+{aps}
+    }}
+    nexthop {{
+{nhs}
+    }}
+}}
+"""
+
+
+def build_neighbor_from_text(c: dict) -> Neighbor | None:
+    """Through the real configuration parser (Configuration(text).reload()). None when refused."""
+    from exabgp.configuration.configuration import Configuration
+
+    text = cfg_text(c)
+    if text is None:
+        return None
+    RIB._cache.clear()
+    conf = Configuration([text], text=True)
+    try:
+        if not conf.reload() or len(conf.neighbors) != 1:
+            return None
+    except Exception:
+        return None
+    return list(conf.neighbors.values())[0]
+
+
 def software_string() -> bytes:
     return Software().software_version.encode('utf-8')
 
@@ -246,9 +307,19 @@ def render_open(o: Open) -> str:
 
 def run_impl(c: dict, theirs_body: bytes) -> dict:
     """One pair (configuration, peer OPEN body) through the real code."""
-    neighbor = build_neighbor(c)
+    neighbor = build_neighbor_from_text(c) if c.get('_text') else None
+    via = 'text' if neighbor is not None else 'settings'
+    if neighbor is None:
+        neighbor = build_neighbor(c)
     sent, ours_body = our_open(neighbor)
-    res: dict[str, Any] = {'ours': ours_body, 'words': cfg_words(c, neighbor), 'ours_set': render_capset(sent.capabilities), 'neg': None}
+    # the configuration as the Neighbor object holds it (the parser's normalisation is accepted as
+    # "what the configuration enables": e.g. add-path / next-hop families outside `family` are dropped)
+    eff = dict(c)
+    if via == 'text':
+        eff['fam'] = [[int(a), int(f)] for a, f in neighbor.families()]
+        eff['aps'] = [[int(a), int(f)] for a, f in neighbor.addpaths()]
+        eff['nhs'] = [[int(a), int(f), int(h)] for a, f, h in neighbor.nexthops()]
+    res: dict[str, Any] = {'eff': eff, 'ours': ours_body, 'words': cfg_words(c, neighbor), 'ours_set': render_capset(sent.capabilities), 'neg': None, 'via': via}
     status, theirs = decode_impl(theirs_body, neighbor)
     if theirs is None:
         res['out'] = status
